@@ -160,6 +160,10 @@ def build(op, env, arrays=None):
             A = np.array(op["mats"], dtype=np.float64).reshape(bshape + (dim, dim))
             P = A @ np.swapaxes(A, -1, -2) + 0.5 * np.eye(dim)
             L = np.linalg.cholesky(P)
+            if op.get("extra"):
+                # over-complete factor: extra columns (precision P + E E^T stays well conditioned)
+                E = np.array(op["extra"], dtype=np.float64).reshape(dim, -1)
+                L = np.concatenate([L, np.broadcast_to(E, bshape + E.shape)], -1)
             loc = np.array(op["locs"], dtype=np.float64).reshape(bshape + (dim,))
             white = (np.swapaxes(L, -1, -2) @ loc[..., None])[..., 0]
         if arrays is not None:
@@ -730,15 +734,16 @@ def gen_gauss(r):
         r.shuffle(reals)
         dim = sum(int(np.prod(sh)) if sh else 1 for _, sh in reals)
         nb_total = int(np.prod([sz for _, sz in batch])) if batch else 1
-        return g.emit(
-            {
-                "op": "gaussian",
-                "batch": batch,
-                "reals": reals,
-                "mats": [round(r.gauss(0, 1), 3) for _ in range(nb_total * dim * dim)],
-                "locs": [round(r.gauss(0, 1), 3) for _ in range(nb_total * dim)],
-            }
-        )
+        op = {
+            "op": "gaussian",
+            "batch": batch,
+            "reals": reals,
+            "mats": [round(r.gauss(0, 1), 3) for _ in range(nb_total * dim * dim)],
+            "locs": [round(r.gauss(0, 1), 3) for _ in range(nb_total * dim)],
+        }
+        if r.random() < 0.25:
+            op["extra"] = [round(r.gauss(0, 1), 3) for _ in range(dim * r.choice([1, 2]))]
+        return g.emit(op)
 
     def weights_leaf():
         nb = r.choice([1, 1, 2])
@@ -950,14 +955,17 @@ def corpus(r):
     out.append((g.program, "tropical"))
     # 6. marginals of Gaussians whose square-root factor is not square: every split of the real
     #    inputs into marginalised / kept blocks with  dim(marginalised) <= rank
-    for _ in range(4):
-        g = Gen(r, family="log", max_event=0, real_vars=False)
+    shapes = []
+    for _ in range(2):
         reals = [[n, REALS[n]] for n in sorted(REALS)]
         r.shuffle(reals)
         reals = reals[: r.choice([2, 3])]
+        dim = sum((int(np.prod(sh)) if sh else 1) for _, sh in reals)
+        shapes.extend((reals, rank) for rank in range(1, dim + 2))  # every rank: deficient, square, over-complete
+    for reals, rank in shapes:
+        g = Gen(r, family="log", max_event=0, real_vars=False)
         dims = {n: (int(np.prod(sh)) if sh else 1) for n, sh in reals}
         dim = sum(dims.values())
-        rank = r.randint(1, dim + 1)
         batch = [[n, g.sizes[n]] for n in r.sample(NAMES[:2], r.choice([0, 1]))]
         nb_total = int(np.prod([sz for _, sz in batch])) if batch else 1
         leaf = g.emit(
